@@ -1,4 +1,5 @@
 import Gonuts.Lemmas.Select
+import Gonuts.Lemmas.SplitTarget
 /-!
   Helper lemmas about the `swapToSend` arithmetic and `getProofsForAmount` (`Model.Select`).
 -/
@@ -108,5 +109,58 @@ theorem getProofsForAmount_cases (srt : Sorter) (m : Mint) (inactive active : Li
       rw [if_neg this]
   | errBalance => exact Or.inl ⟨_, rfl, fun ps h => SelResult.noConfusion h, rfl⟩
   | errFunds a f t => exact Or.inl ⟨_, rfl, fun ps h => SelResult.noConfusion h, rfl⟩
+
+theorem getProofsForAmount_swap {srt : Sorter} {m : Mint} {inactive active : List P} {amount : UInt64} {inc : Bool}
+    {plan : SwapPlan} (h : getProofsForAmount srt m inactive active amount inc = .swap plan) :
+    swapToSend srt m inactive active amount inc = .swap plan := by
+  rcases getProofsForAmount_cases srt m inactive active amount inc with
+    ⟨e, _, _, he⟩ | ⟨sel', _, _, ho⟩ | ⟨sel', _, _, hsw⟩
+  · rw [he] at h; exact SendOutcome.noConfusion h
+  · rw [ho] at h; exact SendOutcome.noConfusion h
+  · rw [hsw] at h; exact h
+
+/-- The swap request `swapToSend` builds is balanced: inputs = send outputs + change outputs + the fee of the
+    inputs, in ℕ.  In particular the unchecked `proofsAmount - amount - uint64(fees)` does not wrap (by
+    `select_sound` for the inputs), the mint's `proofsAmount - fees ≥ Σ outputs` test passes, and with equality:
+    no value is left at the mint. -/
+theorem swapToSend_balanced {srt : Sorter} (hs : srt.OK) {m : Mint} {inactive active : List P} {amount : UInt64}
+    {inc : Bool} {plan : SwapPlan} (h : swapToSend srt m inactive active amount inc = .swap plan)
+    (hn : NoWrap m true (inactive ++ active))
+    (hA : amount.toNat + (feesToReceive m.activePpk amount inc).toNat + feeOptN m true inactive
+            + feeOptN m true active < 2 ^ 64)
+    (hw : (inactive ++ active).length < 2 ^ 63) :
+    (∃ rest, (plan.inputs ++ rest).Perm (inactive ++ active)) ∧
+    natSum plan.send = amount.toNat + (feesToReceive m.activePpk amount inc).toNat ∧
+    natSum plan.send + natSum plan.change + feeN m plan.inputs = amountN plan.inputs := by
+  rcases swapToSend_cases srt m inactive active amount inc with ⟨e, he, _⟩ | ⟨plan', hp, h1, h2, h3, h4, h5, h6, h7⟩
+  · rw [he] at h; exact SendOutcome.noConfusion h
+  · rw [hp] at h
+    injection h with h
+    subst h
+    have ham : plan'.amount'.toNat = amount.toNat + (feesToReceive m.activePpk amount inc).toNat := by
+      rw [h2, UInt64.toNat_add, Nat.mod_eq_of_lt (by omega)]
+    obtain ⟨⟨rest, hperm⟩, hcov⟩ := selectProofsForAmount_ok_nat hs h3 hn (by rw [ham]; omega)
+    obtain ⟨_, _, s3, s4⟩ := hn.sub hperm
+    have hfe : feeOptN m true plan'.inputs = feeN m plan'.inputs := rfl
+    have hfee : plan'.fees.toNat = feeN m plan'.inputs := by rw [h5]; exact s4
+    have hpa : plan'.proofsAmount.toNat = amountN plan'.inputs := by rw [h4]; exact s3
+    have hchange : plan'.changeAmount.toNat = amountN plan'.inputs - plan'.amount'.toNat - feeN m plan'.inputs := by
+      rw [h6, UInt64.toNat_sub, UInt64.toNat_sub, hpa, hfee]
+      have := plan'.amount'.toNat_lt
+      have := plan'.proofsAmount.toNat_lt
+      omega
+    have hsend := sendSplit_natSum m.activePpk amount inc
+    have hcs : natSum plan'.change = plan'.changeAmount.toNat := by
+      rw [h7]
+      split
+      · have hl : (amounts (inactive ++ active)).length < 2 ^ 63 := by simpa [amounts] using hw
+        exact (splitWalletTarget_spec _ _ hl).1
+      · rename_i hz
+        have : ¬ (0 < plan'.changeAmount.toNat) := fun h0 =>
+          hz (by rw [gt_iff_lt, UInt64.lt_iff_toNat_lt]; simpa using h0)
+        simp; omega
+    refine ⟨⟨rest, hperm⟩, by rw [h1]; exact hsend, ?_⟩
+    rw [h1, hsend, hcs, hchange]
+    omega
 
 end Gonuts.Model.Select
